@@ -90,6 +90,12 @@ def d2_core(ctx, res, funcs):
             elif isinstance(node, ast.Attribute) and dotted(node) == "os.environ":
                 why = "environment"
                 d = "os.environ"
+            if why is None and isinstance(node, ast.Name) and isinstance(node.ctx, ast.Load) and node.id in ("id", "hash") \
+                    and node.id not in f.locals():
+                par0 = P.parent.get(id(node))
+                if not (isinstance(par0, ast.Call) and par0.func is node):
+                    why = NONDET_CALLS[node.id] + " (function passed as a value, e.g. a sort key)"
+                    d = node.id + "-ref"
             if why is None:
                 continue
             n += 1
